@@ -403,7 +403,10 @@ def build_sesparse(rng, *, capacity: int, grain: int = 8, gt_sectors: int = 64, 
         if placement not in ("seq", "runs", "revruns") and rng.random() < 0.15:
             nxt += rng.randrange(1, 4)
         if big_index and rng.random() < 0.1:
-            nxt += rng.randrange(1, 1 << 22)  # exercise the high bits of the split index
+            # exercise the high bits of the split index, up to grains tens of TiB into the file (index >= 2^32)
+            jump = rng.choice([rng.randrange(1, 1 << 22), rng.randrange(1, 1 << 22), max(1, (1 << 32) - nxt % (1 << 32) - rng.randrange(0, 3)), (1 << 33) + rng.randrange(1 << 20)])
+            if nxt + jump < (1 << 35):
+                nxt += jump
         idx[g] = nxt
         nxt += 1
     sf = SparseFile()
